@@ -227,6 +227,7 @@ fn eval_isolated(check: &dyn Check, scenario: &Value, timeout: Duration) -> (Vec
         }
     };
     let _ = std::fs::remove_file(&path);
+    let _ = std::fs::remove_dir(&dir); // only if empty (the supervisor removes its own at the end)
     match status {
         None => (
             vec![Violation {
